@@ -164,6 +164,7 @@ def _conform_filename(
             mode="wt",
             skip_black=False,
         )
+        print("modified", filename, sep="\t")
         return filename, True
 
     with open(filename, "rt") as f:
@@ -181,6 +182,7 @@ def _conform_filename(
         # replace path below does, so that the next run finds nothing left to change
         parsed_ast.body.append(replacement_node)
         emit.file(parsed_ast, filename=filename, mode="wt", skip_black=False)
+        print("modified", filename, sep="\t")
         return filename, True
     assert len(search) > 0
 
